@@ -67,6 +67,18 @@ Definition attrs_eqb (a b : attrs) : bool :=
 Definition oattrs_eqb (a b : option attrs) : bool :=
   match a, b with None, None => true | Some x, Some y => attrs_eqb x y | _, _ => false end.
 Record attrcase := { t_id : nat; t_kind : nat; t_a : attrs; t_b : attrs; t_res : option attrs }.
+(* __add__: the property fixes only the shape of a sum; which summand the
+   dims / dimsd are taken from ("replace if shape-like") is an implementation
+   choice, so any of the two is accepted here; raising must agree with the model *)
+Definition sum_ok (a b : attrs) (m r : option attrs) : bool :=
+  match m, r with
+  | None, None => true
+  | Some _, Some x =>
+      (fst (a_shape x) =? fst (a_shape a)) && (snd (a_shape x) =? snd (a_shape a)) &&
+      (leqb (a_dims x) (a_dims a) || leqb (a_dims x) (a_dims b)) &&
+      (leqb (a_dimsd x) (a_dimsd a) || leqb (a_dimsd x) (a_dimsd b))
+  | _, _ => false
+  end.
 Definition check_attr (c : attrcase) : list nat :=
   let m := match t_kind c with
            | 0 => Some (t_a c)
@@ -75,7 +87,7 @@ Definition check_attr (c : attrcase) : list nat :=
            | 4 => sum (t_a c) (t_b c)
            | _ => scaled (t_a c)
            end in
-  (if oattrs_eqb m (t_res c) then [] else [1%nat]) ++
+  (if (if t_kind c =? 4 then sum_ok (t_a c) (t_b c) m (t_res c) else oattrs_eqb m (t_res c)) then [] else [1%nat]) ++
   (match t_res c with Some r => if wfb r then [] else [2%nat] | None => [] end).
 
 (* ---------------- values ----------------
